@@ -2,7 +2,7 @@
    Reference encoders (rec4 / recs4, rec5, enc_did / enc_dids, lenpref, big-endian fields) are in Proofs/C02_lemmas.v. *)
 From Coq Require Import ZArith List Bool String.
 From UDS Require Import Lib.Bytes Lib.ErrM Lib.PyOps Model.Message Model.Client Model.Services Model.Svc_Memory Model.Svc_Did
-  Model.Svc_File Model.Svc_Dtc Proofs.Bytes_lemmas Proofs.History_lemmas Proofs.C02_lemmas Proofs.C02b_lemmas Proofs.C14_lemmas.
+  Model.Svc_File Model.Svc_Dtc Proofs.Bytes_lemmas Proofs.History_lemmas Proofs.C02_lemmas Proofs.C02b_lemmas Proofs.C02c_lemmas Proofs.C14_lemmas.
 Import ListNotations.
 Open Scope Z_scope.
 
@@ -101,7 +101,143 @@ Theorem C02_fault_counters : forall pc l pre acc fuel,
 Proof. intros pc l pre acc fuel Hw Hz Hf. exact (loop_fault_counters_decode pc l pre acc 0 fuel Hw Hz (or_introl eq_refl) Hf). Qed.
 Print Assumptions C02_fault_counters.
 
-(* C02_partial: the user-defined-memory variants 0x18 / 0x19 (one more header byte), the snapshot-identification pairs (0x03),
-   the RequestFileTransfer composite and the Authentication task layouts are decoded field by field by the functions whose
-   primitive steps are proved above (take_num, extract_param, sub3/at_, the loops); their end-to-end statement is checked by the
-   structured-valid correspondence against the reference server encoder tools/harness/respspec.py, not yet by a Coq theorem. *)
+(* ---- the whole response payload of read_dtc_information, end to end (rdtci_decode is interpret_response): every report type
+   with a record layout, any number of records, and (n > 0) the trailing zero bytes the tolerance settings allow ---------- *)
+
+(* reportNumberOfDTC... (0x01, 0x07, 0x11, 0x12): availability mask, format identifier, 16-bit count *)
+Theorem C02_number_of_dtc : forall cfg sub a av fmt cnt extra,
+  In sub [1; 7; 17; 18] -> 0 <= cnt < 65536 ->
+  rdtci_decode cfg sub a ([sub; av; fmt] ++ be_enc 2 cnt ++ extra)
+  = inr {| r_echo := sub; r_memsel := -1; r_status_av := av; r_sev_av := -1; r_format := fmt; r_fgid := -1;
+           r_count := cnt; r_dtcs := [] |}.
+Proof. exact number_of_dtc_decode. Qed.
+Print Assumptions C02_number_of_dtc.
+
+(* the status-mask family (0x02, 0x0A..0x0F, 0x13, 0x15): availability mask, then (DTC, status)* *)
+Theorem C02_dtc_by_status_mask : forall cfg sub a av l n,
+  In sub [2; 10; 11; 12; 13; 14; 15; 19; 21] -> Forall wf_rec4 l ->
+  ((n = 0%nat /\ (ign_zero cfg = true -> Forall (fun x => x <> (0, 0)) l))
+   \/ (tol_pad cfg = true /\ ign_zero cfg = true /\ Forall (fun x => x <> (0, 0)) l)) ->
+  rdtci_decode cfg sub a ([sub; av] ++ recs4 l ++ repeat 0 n)
+  = inr {| r_echo := sub; r_memsel := -1; r_status_av := av; r_sev_av := -1; r_format := -1; r_fgid := -1;
+           r_count := Z.of_nat (List.length l); r_dtcs := map dtc4 l |}.
+Proof. exact dtc_list_decode_one. Qed.
+Print Assumptions C02_dtc_by_status_mask.
+
+(* reportUserDefMemoryDTCByStatusMask (0x17, 2020 edition): memory selection echo first *)
+Theorem C02_userdef_dtc_by_status_mask : forall cfg a ms av l n,
+  2020 <= std cfg -> Forall wf_rec4 l ->
+  ((n = 0%nat /\ (ign_zero cfg = true -> Forall (fun x => x <> (0, 0)) l))
+   \/ (tol_pad cfg = true /\ ign_zero cfg = true /\ Forall (fun x => x <> (0, 0)) l)) ->
+  rdtci_decode cfg 23 a ([23; ms; av] ++ recs4 l ++ repeat 0 n)
+  = inr {| r_echo := 23; r_memsel := ms; r_status_av := av; r_sev_av := -1; r_format := -1; r_fgid := -1;
+           r_count := Z.of_nat (List.length l); r_dtcs := map dtc4 l |}.
+Proof. exact userdef_dtc_list_decode. Qed.
+Print Assumptions C02_userdef_dtc_by_status_mask.
+
+(* reportDTCSnapshotIdentification (0x03): (DTC, snapshot record number)*: one Dtc per identifier in order of first appearance,
+   holding exactly that identifier's record numbers in order of appearance (snapid_spec, Proofs/C02c_lemmas.v) *)
+Theorem C02_snapshot_identification : forall cfg a l n,
+  Forall wf_rec4 l -> (ign_zero cfg = true -> Forall (fun x => x <> (0, 0)) l) ->
+  (n = 0%nat \/ (tol_pad cfg = true /\ ign_zero cfg = true)) ->
+  rdtci_decode cfg 3 a ([3] ++ recs4 l ++ repeat 0 n)
+  = inr {| r_echo := 3; r_memsel := -1; r_status_av := -1; r_sev_av := -1; r_format := -1; r_fgid := -1;
+           r_count := Z.of_nat (List.length (snapid_spec l)); r_dtcs := snapid_spec l |}.
+Proof. exact snapshot_identification_decode. Qed.
+Print Assumptions C02_snapshot_identification.
+Theorem C02_snapshot_identification_groups : forall l,
+  snapid_spec l = map (fun id => snapid_dtc id (map snd (filter (fun p => fst p =? id) l))) (firsts (map fst l))
+  /\ NoDup (firsts (map fst l)) /\ (forall x, In x (firsts (map fst l)) <-> In x (map fst l)).
+Proof. exact snapid_spec_groups. Qed.
+
+(* reportDTCSnapshotRecordByRecordNumber (0x05) *)
+Theorem C02_snapshots_by_record_number : forall cfg a l n,
+  1 <= snap_did cfg <= 8 -> Forall (wf_srec (pc_of cfg)) l -> l <> [] -> (n = 0%nat \/ tol_pad cfg = true) ->
+  rdtci_decode cfg 5 a ([5] ++ flat_map (srec (Z.to_nat (snap_did cfg))) l ++ repeat 0 n)
+  = inr {| r_echo := 5; r_memsel := -1; r_status_av := -1; r_sev_av := -1; r_format := -1; r_fgid := -1;
+           r_count := Z.of_nat (List.length l); r_dtcs := map dtc_of_srec l |}.
+Proof. exact snapshots_by_record_decode. Qed.
+Print Assumptions C02_snapshots_by_record_number.
+
+(* reportDTCBySeverityMaskRecord (0x08), reportSeverityInformationOfDTC (0x09) *)
+Theorem C02_severity : forall cfg sub a av l n,
+  In sub [8; 9] -> Forall wf_rec6 l -> (ign_zero cfg = true -> Forall (fun x => x <> (0, 0, 0, 0)) l) ->
+  (n = 0%nat \/ (tol_pad cfg = true /\ ign_zero cfg = true)) ->
+  rdtci_decode cfg sub a ([sub; av] ++ flat_map rec6 l ++ repeat 0 n)
+  = inr {| r_echo := sub; r_memsel := -1; r_status_av := av; r_sev_av := -1; r_format := -1; r_fgid := -1;
+           r_count := Z.of_nat (List.length l); r_dtcs := map dtc6 l |}.
+Proof. exact severity_decode. Qed.
+Print Assumptions C02_severity.
+
+(* reportMirrorMemoryDTCExtDataRecordByDTCNumber (0x10) *)
+Theorem C02_mirror_extended_data : forall cfg a dtc st size l n,
+  0 <= dtc < 16777216 -> 0 <= st < 256 -> ext_size_of cfg a = inr size -> Forall (wf_ext size) l ->
+  (n = 0%nat \/ tol_pad cfg = true) ->
+  rdtci_decode cfg 16 a ([16] ++ be_enc 3 dtc ++ [st] ++ flat_map ext_rec l ++ repeat 0 n)
+  = inr {| r_echo := 16; r_memsel := -1; r_status_av := -1; r_sev_av := -1; r_format := -1; r_fgid := -1; r_count := 1;
+           r_dtcs := [dtc_with (mk_dtc dtc) st 0 (-1) (-1) [] l] |}.
+Proof. exact mirror_extdata_decode_pad. Qed.
+Print Assumptions C02_mirror_extended_data.
+
+(* reportDTCFaultDetectionCounter (0x14) *)
+Theorem C02_fault_detection_counters : forall cfg a l n,
+  Forall wf_rec4 l -> (ign_zero cfg = true -> Forall (fun x => x <> (0, 0)) l) ->
+  (n = 0%nat \/ (tol_pad cfg = true /\ ign_zero cfg = true)) ->
+  rdtci_decode cfg 20 a ([20] ++ recs4 l ++ repeat 0 n)
+  = inr {| r_echo := 20; r_memsel := -1; r_status_av := -1; r_sev_av := -1; r_format := -1; r_fgid := -1;
+           r_count := Z.of_nat (List.length l); r_dtcs := map dtcf l |}.
+Proof. exact fault_counters_decode. Qed.
+Print Assumptions C02_fault_detection_counters.
+
+(* reportDTCExtDataRecordByRecordNumber (0x16, 2020 edition): record number 0..0xEF, then (DTC, status, data)* with distinct DTCs *)
+Theorem C02_extended_data_by_record_number : forall cfg a recnum size l n,
+  2020 <= std cfg -> 0 <= recnum <= 239 -> ext_size_of cfg a = inr size -> Forall (wf_erec size) l -> NoDup (map eid l) ->
+  (n = 0%nat \/ (tol_pad cfg = true /\ (ign_zero cfg = true \/ (n < size + 4)%nat))) ->
+  rdtci_decode cfg 22 a ([22; recnum] ++ flat_map erec l ++ repeat 0 n)
+  = inr {| r_echo := 22; r_memsel := -1; r_status_av := -1; r_sev_av := -1; r_format := -1; r_fgid := -1;
+           r_count := Z.of_nat (List.length l); r_dtcs := map (dtc_of_erec recnum) l |}.
+Proof. exact extdata_by_record_decode. Qed.
+Print Assumptions C02_extended_data_by_record_number.
+
+(* the user-defined-memory variants (0x18, 0x19; 2020 edition): memory selection echo, then as 0x04 / 0x06 *)
+Theorem C02_userdef_snapshots : forall cfg a ms dtc st l n,
+  2020 <= std cfg -> 0 <= ms < 256 -> 0 <= dtc < 16777216 -> 0 <= st < 256 -> 1 <= snap_did cfg <= 8 -> Forall (wf_snap (pc_of cfg)) l ->
+  (n = 0%nat \/ tol_pad cfg = true) ->
+  rdtci_decode cfg 24 a ([24; ms] ++ be_enc 3 dtc ++ [st] ++ flat_map (snap_rec (Z.to_nat (snap_did cfg))) l ++ repeat 0 n)
+  = inr {| r_echo := 24; r_memsel := ms; r_status_av := -1; r_sev_av := -1; r_format := -1; r_fgid := -1; r_count := 1;
+           r_dtcs := [dtc_with (mk_dtc dtc) st 0 (-1) (-1) (flat_map snaps_of l) []] |}.
+Proof. exact userdef_snapshots_decode_pad. Qed.
+Print Assumptions C02_userdef_snapshots.
+Theorem C02_userdef_extended_data : forall cfg a ms dtc st size l n,
+  2020 <= std cfg -> 0 <= ms < 256 -> 0 <= dtc < 16777216 -> 0 <= st < 256 -> ext_size_of cfg a = inr size -> Forall (wf_ext size) l ->
+  (n = 0%nat \/ tol_pad cfg = true) ->
+  rdtci_decode cfg 25 a ([25; ms] ++ be_enc 3 dtc ++ [st] ++ flat_map ext_rec l ++ repeat 0 n)
+  = inr {| r_echo := 25; r_memsel := ms; r_status_av := -1; r_sev_av := -1; r_format := -1; r_fgid := -1; r_count := 1;
+           r_dtcs := [dtc_with (mk_dtc dtc) st 0 (-1) (-1) [] l] |}.
+Proof. exact userdef_extdata_decode_pad. Qed.
+Print Assumptions C02_userdef_extended_data.
+
+(* WWH-OBD (0x42, 0x55; 2020 edition): functional group, availability masks, format identifier, (severity, DTC, status)* *)
+Theorem C02_wwh_obd_by_mask : forall cfg a fg sa sva fmt l n,
+  2020 <= std cfg -> 0 <= fg <= 254 -> (fmt = 4 \/ fmt = 2) ->
+  Forall wf_rec5 l -> (ign_zero cfg = true -> Forall (fun x => x <> (0, 0, 0)) l) ->
+  (n = 0%nat \/ (tol_pad cfg = true /\ ign_zero cfg = true)) ->
+  rdtci_decode cfg 66 a ([66; fg; sa; sva; fmt] ++ flat_map rec5 l ++ repeat 0 n)
+  = inr {| r_echo := 66; r_memsel := -1; r_status_av := sa; r_sev_av := Z.land sva 224; r_format := fmt; r_fgid := fg;
+           r_count := Z.of_nat (List.length l); r_dtcs := map dtc5 l |}.
+Proof. exact wwh_obd_decode. Qed.
+Print Assumptions C02_wwh_obd_by_mask.
+Theorem C02_wwh_obd_permanent : forall cfg a fg sa fmt l n,
+  2020 <= std cfg -> 0 <= fg <= 254 -> (fmt = 4 \/ fmt = 2) ->
+  Forall wf_rec5 l -> (ign_zero cfg = true -> Forall (fun x => x <> (0, 0, 0)) l) ->
+  (n = 0%nat \/ (tol_pad cfg = true /\ ign_zero cfg = true)) ->
+  rdtci_decode cfg 85 a ([85; fg; sa; fmt] ++ flat_map rec5 l ++ repeat 0 n)
+  = inr {| r_echo := 85; r_memsel := -1; r_status_av := sa; r_sev_av := -1; r_format := fmt; r_fgid := fg;
+           r_count := Z.of_nat (List.length l); r_dtcs := map dtc5 l |}.
+Proof. exact wwh_obd_permanent_decode. Qed.
+Print Assumptions C02_wwh_obd_permanent.
+
+(* C02_partial: the RequestFileTransfer composite and the Authentication task layouts are decoded field by field by the
+   functions whose primitive steps are proved above (take_num, extract_param, sub3/at_); their end-to-end statement is checked by
+   the structured-valid correspondence against the reference server encoder tools/harness/respspec.py, not yet by a Coq theorem.
+   Report types 0x1A and 0x56 have no decoder in this version of the library (the response is returned undecoded). *)
